@@ -100,9 +100,12 @@ class ConditionalSMCSampler(AbstractSMCSampler):
 
             multiplicities = self._rng.multinomial(self.num_particles - 1, self.swarm.weights)
 
-            assert not np.isneginf(self.constrained_path[self.iteration + 1].log_w)
+            # The retained (conditional) particle of the current swarm always sits in slot 0
+            retained_particle = self.swarm.particles[0]
 
-            new_swarm.add_particle(log_uniform_weight, self.constrained_path[self.iteration + 1])
+            assert not np.isneginf(retained_particle.log_w)
+
+            new_swarm.add_particle(log_uniform_weight, retained_particle)
 
             for particle, multiplicity in zip(self.swarm.particles, multiplicities):
                 for _ in range(multiplicity):
